@@ -43,8 +43,11 @@ MatchPT(tab, o) == {n \in MatchP(tab, o) : Close(tab[n].e[2], o[2], TolOf(tab[n]
 
 \* a sampled site is never preceded by an enumerating site: the distribution of
 \* the visited path is the product of the conditional Bernoulli probabilities
-LinearProg(p) == \A s \in 1..NSites(p) : SiteStmt(p, s).strat \in SampledStrats =>
-                    \A s0 \in 1..(s - 1) : SiteStmt(p, s0).strat \in SampledStrats
+LinearProg(p) == /\ \A s \in 1..NSites(p) : SiteStmt(p, s).strat \in SampledStrats =>
+                       \A s0 \in 1..(s - 1) : SiteStmt(p, s0).strat \in SampledStrats
+                 \* (flip_mvd evaluates the other outcome with the same key: later sampled sites are coupled)
+                 /\ \A s \in 1..NSites(p) : SiteStmt(p, s).strat = "MVD" =>
+                       \A s1 \in (s + 1)..NSites(p) : SiteStmt(p, s1).strat \notin SampledStrats
 RECURSIVE QSumSet(_, _, _)
 QSumSet(p, thq, W) == IF W = {} THEN Q0
                       ELSE LET n == CHOOSE m \in W : TRUE IN QAdd(POm(p, thq, OmSeq[n]), QSumSet(p, thq, W \ {n}))
@@ -125,15 +128,31 @@ GeoOkV(ev, o, v) == /\ v >= 0 /\ Close(XF(ev, o, 1), v * ev.a[1] * S, 3)
                     /\ (v <= 200 => Close(o.t[1], ToFPBig(GeoT(ev, v)), TolOf(o.t[1])))
 GeoOk(ev, o) == GeoOkV(ev, o, GeoV(ev, o))
 
+\* two consecutive tail-call sites (component i = site i): pathwise law per component, and
+\* the inferred noises are independent: the number of keys on which they have the same sign
+\* is within the Hoeffding bound hb of n/2 (C29.indep)
+Noise1(ev, o) == IF ev.fam = "uniform_normal_reparam" THEN 2 * XF(ev, o, 1) - ev.a[1] * S ELSE Eps1(ev, o)
+Noise2(ev, o) == Eps2(ev, o, 0)
+RECURSIVE SameSign(_, _)
+SameSign(ev, i) == IF i > Len(ev.outs) THEN 0
+                   ELSE (IF (Noise1(ev, ev.outs[i]) > 0) = (Noise2(ev, ev.outs[i]) > 0) THEN 1 ELSE 0) + SameSign(ev, i + 1)
+IndepOk(ev) == ev.hb = 0 \/ Diff(2 * SameSign(ev, 1), Len(ev.outs)) <= 2 * ev.hb
+TwoOk(ev, o) == IF ev.fam = "two_normal_reparam" THEN PathOk2(ev, o, Eps1(ev, o), Eps2(ev, o, 0))
+                ELSE /\ Close(o.t[1], ev.c[1] * S, 2) /\ XF(ev, o, 1) >= -2 /\ XF(ev, o, 1) <= ev.a[1] * S + 2
+                     /\ SaneEps(Noise2(ev, o)) => Close(o.t[2], PathT2(ev, 0, Noise2(ev, o)), 2 * TolC)
+
 ContOutOk(ev, o) ==
   CASE ev.fam \in {"normal_reparam", "mv_normal_diag_reparam", "mv_normal_reparam"} -> PathwiseOk(ev, o)
+    [] ev.fam \in {"two_normal_reparam", "uniform_normal_reparam"} -> TwoOk(ev, o)
     [] ev.fam = "normal_reinforce" -> ScoreOk(ev, o)
     [] ev.fam = "uniform" -> UniformOk(ev, o)
     [] ev.fam = "beta_implicit" -> BetaOk(ev, o)
     [] ev.fam = "geometric_reinforce" -> GeoOk(ev, o)
 ContVerdict(ev) ==
   IF ev.status # "ok" THEN "C29.run"
-  ELSE IF \A i \in 1..Len(ev.outs) : ContOutOk(ev, ev.outs[i]) THEN "ok" ELSE "C29.cont"
+  ELSE IF ~(\A i \in 1..Len(ev.outs) : ContOutOk(ev, ev.outs[i])) THEN "C29.cont"
+  ELSE IF ev.fam \in {"two_normal_reparam", "uniform_normal_reparam"} /\ ~IndepOk(ev) THEN "C29.indep"
+  ELSE "ok"
 
 Verdict(ev) ==
   CASE ev.kind = "jvp"  -> JvpVerdict(ev)
